@@ -86,6 +86,17 @@ class Prov:
         bb, idx, kind, item = d
         if kind == "assign":
             t = self.rvalue(item["rv"], depth + 1)
+            # a single-definition copy of a multi-definition local m is a *snapshot* of m at the copy.
+            # When exactly one definition of m reaches the copy, the snapshot is named by that
+            # SSA version (two snapshots with the same version, one dominating the other, are the same value);
+            # otherwise it stays distinct from every other read.
+            if t[0] == "local" and item["rv"]["k"] == "use" and len(t) <= 3:
+                m = t[1]
+                v = b.ssa_version(m, bb, idx)
+                if v is not None and v[0] in ("d", "phi", "entry"):
+                    t = ("local", m, b.local_name(m), v)
+                else:
+                    t = ("local", l, b.local_name(l) or (t[2] if len(t) > 2 else None))
         else:
             c = item["callee"]
             name = c.get("rpath") or c.get("path") or "<indirect>"
